@@ -81,6 +81,7 @@ Definition eph_call (n : node) : M node := bind (d_eph (nname n)) (fun v => ret 
 (* float values as exact fractions: random.random(), pset.terminalRatio, termpb *)
 Definition frac := (Z * positive)%type.
 Definition frac_ltb (u p : frac) : bool := lt_frac u (fst p) (snd p).
+Definition frac_leb (u p : frac) : bool := negb (lt_frac p (fst u) (snd u)).
 Definition terminal_ratio (ps : pset) : frac := (p_rnum ps, p_rden ps).
 
 (* ---- defaultdict(list) keyed by types, values lists of ints; insertion order of the keys ---- *)
